@@ -5,7 +5,7 @@
     five representations agree with the abstract view is what the correspondence
     run checks, path by path). *)
 From Coq Require Import ZArith Bool List String.
-From PV Require Import Model.Term Model.Unify Proofs.Unify.
+From PV Require Import Model.Term Model.Unify Proofs.Unify Proofs.UnifySound.
 Import ListNotations.
 Open Scope Z_scope.
 
@@ -52,6 +52,36 @@ Theorem C02_unify_extends :
     forall s, sat s e' -> sat s e.
 Proof. exact unify_extends. Qed.
 Print Assumptions C02_unify_symmetric.
+
+(** "succeeds iff unifiable", the remaining half: a success that is not subject to
+    occurs check has a solution -- some substitution satisfies the resulting
+    bindings and makes the two terms equal (the bindings are acyclic; the proof
+    carries a solved form of the env as an invariant) *)
+Theorem C02_unify_succeeds_only_if_unifiable :
+  forall fuel x y e, unify_f fuel false empty_env x y = UOk e -> poisoned e = false ->
+    exists s, sat s e /\ apply s x = apply s y.
+Proof. exact unify_ok_unifiable. Qed.
+(** and so does every env reached from a solvable one, e.g. along a derivation *)
+Theorem C02_unify_keeps_solvable :
+  forall fuel e x y e', (exists s, Inv e s) -> unify_f fuel false e x y = UOk e' -> poisoned e' = false ->
+    exists s, Inv e' s.
+Proof. exact unify_keeps_solvable. Qed.
+
+(** unify_with_occurs_check/2 agrees with =/2 when the unifier is finite and fails
+    otherwise *)
+Theorem C02_occurs_check_agrees :
+  forall fuel e x y, poisoned e = false -> oc_rel (unify_f fuel false e x y) (unify_f fuel true e x y).
+Proof. exact occurs_check_agrees. Qed.
+Theorem C02_occurs_check_finite :
+  forall fuel x y e, unify_f fuel false empty_env x y = UOk e -> poisoned e = false ->
+    unify_f fuel true empty_env x y = UOk e.
+Proof. exact occurs_check_finite. Qed.
+Theorem C02_occurs_check_infinite :
+  forall fuel x y e, unify_f fuel false empty_env x y = UOk e -> poisoned e = true ->
+    unify_f fuel true empty_env x y = UFail.
+Proof. exact occurs_check_infinite. Qed.
+Print Assumptions C02_unify_succeeds_only_if_unifiable.
+Print Assumptions C02_occurs_check_agrees.
 
 (** non-vacuity *)
 Open Scope string_scope.
